@@ -30,14 +30,15 @@
 #include <string>
 #include <vector>
 
-// fraction of the opacity carried by helium (0 or 0.25: sigma_H = (1 - f) sigma, sigma_He = f sigma, both neutral fractions 1)
+// fraction of the opacity carried by helium (0 or 0.25): sigma_H = (1 - f) sigma with neutral fraction 1, sigma_He = 2 f sigma
+// with neutral fraction 0.5 (the two neutral fractions differ on purpose)
 static double g_fhe = 0.;
 
 static void set_cell(IonizationVariables &v, double n) {
   v.set_number_density(n);
   v.set_ionic_fraction(ION_H_n, 1.);
 #ifdef HAS_HELIUM
-  v.set_ionic_fraction(ION_He_n, g_fhe > 0. ? 1. : 0.);
+  v.set_ionic_fraction(ION_He_n, g_fhe > 0. ? 0.5 : 0.);
   v.set_heating(HEATINGTERM_He, 0.);
 #endif
   for (int_fast32_t ion = 0; ion < NUMBER_OF_IONNAMES; ++ion)
@@ -59,7 +60,7 @@ static void make_packet(PhotonPacket &ph, const double *pos, const long *d, cons
     ph.set_photoionization_cross_section(ion, 0.);
   ph.set_photoionization_cross_section(ION_H_n, (1. - g_fhe) * sigma);
 #ifdef HAS_HELIUM
-  ph.set_photoionization_cross_section(ION_He_n, g_fhe * sigma);
+  ph.set_photoionization_cross_section(ION_He_n, 2. * g_fhe * sigma);
 #endif
 }
 
@@ -109,9 +110,9 @@ static int do_single(const char *in, const char *outname) {
       heat += b;
 #ifdef HAS_HELIUM
       if (g_fhe > 0.) {
-        snprintf(b, sizeof(b), "%s%.17g", idx ? "," : "", v.get_mean_intensity(ION_He_n) / (w * g_fhe * sigma));
+        snprintf(b, sizeof(b), "%s%.17g", idx ? "," : "", v.get_mean_intensity(ION_He_n) / (w * 2. * g_fhe * sigma));
         dephe += b;
-        snprintf(b, sizeof(b), "%s%.17g", idx ? "," : "", v.get_heating(HEATINGTERM_He) / (w * g_fhe * sigma * (nu - 5.948e15)));
+        snprintf(b, sizeof(b), "%s%.17g", idx ? "," : "", v.get_heating(HEATINGTERM_He) / (w * 2. * g_fhe * sigma * (nu - 5.948e15)));
         heathe += b;
       }
 #endif
@@ -174,7 +175,17 @@ static int do_multi(const char *in, const char *outname) {
         is >> v;
         l = v;
       }
-      creator.create_copies(levels);
+      if (cseed % 3 == 0) {
+        // a second round of duplication with other levels (what the radiation hydrodynamics driver does when the sources
+        // move): first a different level set, then the one the packet is traced through
+        std::vector< uint_fast8_t > first(levels.size());
+        for (size_t k = 0; k < first.size(); ++k)
+          first[k] = (levels[(k + 1) % levels.size()] + 1) % 3;
+        creator.create_copies(first);
+        creator.update_copies(levels);
+      } else {
+        creator.create_copies(levels);
+      }
       copies = true;
     }
     PhotonPacket ph;
@@ -229,6 +240,23 @@ static int do_multi(const char *in, const char *outname) {
     }
     for (size_t i = 0; i < dep.size(); ++i)
       fprintf(out, "%s%.17g", i ? "," : "", dep[i]);
+    // the heating estimator credits the same path (it is folded back from the copies separately)
+    fprintf(out, "],\"heat\":[");
+    {
+      std::vector< double > heat(kap.size(), 0.);
+      for (auto git = creator.begin(); git != creator.original_end(); ++git) {
+        for (auto cit = (*git).begin(); cit != (*git).end(); ++cit) {
+          const CoordinateVector<> m = cit.get_cell_midpoint();
+          const long ix = (long)std::floor((m.x() - a[0]) / (4. * u[0]));
+          const long iy = (long)std::floor((m.y() - a[1]) / (4. * u[1]));
+          const long iz = (long)std::floor((m.z() - a[2]) / (4. * u[2]));
+          heat[ix * G[1] * G[2] + iy * G[2] + iz] +=
+              cit.get_ionization_variables().get_heating(HEATINGTERM_H) / (w * sigma * (nu - 3.288e15));
+        }
+      }
+      for (size_t i = 0; i < heat.size(); ++i)
+        fprintf(out, "%s%.17g", i ? "," : "", heat[i]);
+    }
     fprintf(out, "]}\n");
   }
   fclose(out);
